@@ -29,6 +29,7 @@ import numpy as np
 from sexp import Sym
 from props import _reduce_util as U
 from props import _c30_prog as P
+from props import _c30x as X
 
 PROP = "C30"
 READY = True
@@ -366,7 +367,12 @@ def case_tree(ctx, inp):
         ctx.branch("uneven block grid")
 
 
-CASES = {"tree": case_tree, "trace": case_trace, "pipe": case_pipe, "joint": case_joint}
+def case_tracend(ctx, inp):
+    """extension round: n-d pipelines, every real simplify_once / lower_once pass vs the n-d checker parStepNd"""
+    X.case_tracend(ctx, inp, ask, _da())
+
+
+CASES = {"tree": case_tree, "trace": case_trace, "pipe": case_pipe, "joint": case_joint, "tracend": case_tracend}
 
 
 # ---------------------------------------------------------------------------------------------
@@ -728,3 +734,5 @@ def generate(ctx):
                              "b": {"op": "from_array", "data": [10, 20, 30, 40], "shape": [4], "dtype": "int64", "chunks": [[1, 3]]}}}
     yield from gen_trace(ctx, ctx.n(260, 3000))
     yield from gen_pipe(ctx, ctx.n(260, 3000))
+    # extension round (generated last: the random streams of the older sections are unchanged)
+    yield from X.gen_tracend(ctx, ctx.n(220, 2500))
